@@ -82,30 +82,97 @@ def _node_attr_names(db, f: FuncInfo, param: str, seen=None, depth=0) -> set[str
 
 
 def cache_key_attrs(ctx) -> set[str] | None:
-    """Node attributes the arguments of the ``compute_cache_key`` call in ``check_cache`` depend on
-    (through reaching definitions and the routing-configuration helper); None when the call is not found."""
+    """Node attributes the arguments of the ``compute_cache_key`` call depend on (through reaching definitions
+    and the routing-configuration helper); the call is looked for in ``check_cache`` and in the helpers of the
+    same module it hands the node to.  None when the call is not found."""
     db = ctx.db
     cc = db.func("runners._shared.caching.check_cache")
-    cfg = ctx.cfg(cc)
-    rd = reaching_defs(cfg)
-    kc = [(n, c) for n in cfg.nodes for c in cfg.calls_at(n) if "compute_cache_key" in call_names(db, c, cc)]
-    if len(kc) != 1:
-        return None
-    n, c = kc[0]
-    used: set[str] = set()
-    for a in c.args:
-        for x in ast.walk(a):
-            if isinstance(x, ast.Attribute) and isinstance(x.value, ast.Name) and x.value.id == "node":
-                used.add(x.attr)
-            if isinstance(x, ast.Name):
-                for d, v in defs_reaching(cfg, rd, n, x.id):
-                    if v is not None and not isinstance(v, (ast.FunctionDef, ast.ExceptHandler)):
-                        for y in ast.walk(v):
-                            if isinstance(y, ast.Attribute) and isinstance(y.value, ast.Name) and y.value.id == "node":
-                                used.add(y.attr)
-                            if isinstance(y, ast.Call) and "_routing_config" in call_names(db, y, cc):
-                                used |= _node_attr_names(db, db.func("runners._shared.caching._routing_config"), "node")
-    return used
+    cands: list[tuple[FuncInfo, str]] = [(cc, "node")]
+    for c in db.calls_in(cc):
+        for cal in db.resolve_call(c, cc):
+            if cal.func is not None and cal.kind == "func" and cal.func.module == cc.module:
+                for pn, a in (bind_args(c, cal.func) or {}).items():
+                    if isinstance(a, ast.Name) and a.id == "node":
+                        cands.append((cal.func, pn))
+    for kf, nodep in cands:
+        cfg = ctx.cfg(kf)
+        rd = reaching_defs(cfg)
+        kc = [(n, c) for n in cfg.nodes for c in cfg.calls_at(n) if "compute_cache_key" in call_names(db, c, kf)]
+        if len(kc) != 1:
+            continue
+        n, c = kc[0]
+        used: set[str] = set()
+
+        def scan(e: ast.AST) -> None:
+            for y in ast.walk(e):
+                if isinstance(y, ast.Attribute) and isinstance(y.value, ast.Name) and y.value.id == nodep:
+                    used.add(y.attr)
+                if isinstance(y, ast.Call) and "_routing_config" in call_names(db, y, kf):
+                    used.update(_node_attr_names(db, db.func("runners._shared.caching._routing_config"), "node"))
+
+        for a in c.args:
+            scan(a)
+            for x in ast.walk(a):
+                if isinstance(x, ast.Name):
+                    for d, v in defs_reaching(cfg, rd, n, x.id):
+                        if v is not None and not isinstance(v, (ast.FunctionDef, ast.ExceptHandler)):
+                            scan(v)
+        return used
+    return None
+
+
+def _executor_registry(db) -> dict[str, set[str]]:
+    regs: dict[str, set[str]] = {}
+    for f in db.funcs_in("runners"):
+        if f.cls is None:
+            continue
+        for lit in db.registry_literals(f.cls, "_executors"):
+            for k, v in zip(lit.keys, lit.values):
+                if isinstance(v, ast.Call):
+                    ks = db.resolve_expr_symbol(k, f.module, None)
+                    vs = db.resolve_expr_symbol(v.func, f.module, None)
+                    if ks and ks[0] == "class" and vs and vs[0] == "class":
+                        regs.setdefault(ks[1].qname, set()).add(vs[1].qname)
+    return regs
+
+
+def check_key_covers_executor_reads(ctx, rule: str, only: tuple[str, ...] | None = None) -> None:
+    """Every node attribute the executor of a cacheable node class consults is part of the cache key material
+    (or covered by another key component, table COVERED); ``only`` restricts to classes with one of the names
+    in their MRO."""
+    db, rep = ctx.db, ctx.rep
+    cc = db.func("runners._shared.caching.check_cache")
+    d_key = _node_attr_names(db, cc, "node")
+    rep.extra["key_material_attributes"] = sorted(d_key)
+    classes = cacheable_classes(db)
+    if len(classes) < 3:
+        raise AnalysisError(f"only {len(classes)} cacheable node classes derived")
+    regs = _executor_registry(db)
+    for ci in classes:
+        if only is not None and not any(c.name in only for c in ci.mro()):
+            continue
+        execs = set()
+        for c in ci.mro():
+            execs |= regs.get(c.qname, set())
+        if not execs:
+            if ci.subclasses:
+                continue  # abstract intermediate class: its concrete subclasses are checked
+            rep.bad(rule, f"{ci.name}:executors", ci.loc(), "cacheable node class has no registered executor")
+            continue
+        d_exec = set()
+        for q in sorted(execs):
+            ec = db.classes[q]
+            call = ec.methods.get("__call__")
+            if call is not None:
+                d_exec |= _node_attr_names(db, call, "node")
+        uncovered = sorted(a for a in d_exec if a not in d_key and a not in COVERED and not a.startswith("__"))
+        rep.add(
+            rule,
+            f"{ci.name}",
+            not uncovered,
+            ci.loc(),
+            f"executor reads {sorted(d_exec)}; all in the key material {sorted(d_key)} or covered" if not uncovered else f"executor consults node.{', node.'.join(uncovered)} but the cache key does not depend on it: two nodes differing only there share entries (a hit serves another node's payload" + (" — for a gate: another gate's routing decision is restored and the branch this gate did not select starts)" if any(c.name == "GateNode" for c in ci.mro()) else ")"),
+        )
 
 
 def run(ctx) -> None:
@@ -122,45 +189,9 @@ def run(ctx) -> None:
 
     cc = db.func("runners._shared.caching.check_cache")
     # ---- R1 ---------------------------------------------------------------------
-    d_key = _node_attr_names(db, cc, "node")
-    rep.extra["key_material_attributes"] = sorted(d_key)
+    check_key_covers_executor_reads(ctx, "C09.R1")
     classes = cacheable_classes(db)
-    if len(classes) < 3:
-        raise AnalysisError(f"only {len(classes)} cacheable node classes derived")
-    regs = {}
-    for f in db.funcs_in("runners"):
-        if f.cls is None:
-            continue
-        for lit in db.registry_literals(f.cls, "_executors"):
-            for k, v in zip(lit.keys, lit.values):
-                if isinstance(v, ast.Call):
-                    ks = db.resolve_expr_symbol(k, f.module, None)
-                    vs = db.resolve_expr_symbol(v.func, f.module, None)
-                    if ks and ks[0] == "class" and vs and vs[0] == "class":
-                        regs.setdefault(ks[1].qname, set()).add(vs[1].qname)
-    for ci in classes:
-        execs = set()
-        for c in ci.mro():
-            execs |= regs.get(c.qname, set())
-        if not execs:
-            if ci.subclasses:
-                continue  # abstract intermediate class: its concrete subclasses are checked
-            rep.bad("C09.R1", f"{ci.name}:executors", ci.loc(), "cacheable node class has no registered executor")
-            continue
-        d_exec = set()
-        for q in sorted(execs):
-            ec = db.classes[q]
-            call = ec.methods.get("__call__")
-            if call is not None:
-                d_exec |= _node_attr_names(db, call, "node")
-        uncovered = sorted(a for a in d_exec if a not in d_key and a not in COVERED and not a.startswith("__"))
-        rep.add(
-            "C09.R1",
-            f"{ci.name}",
-            not uncovered,
-            ci.loc(),
-            f"executor reads {sorted(d_exec)}; all in the key material {sorted(d_key)} or covered" if not uncovered else f"executor consults node.{', node.'.join(uncovered)} but the cache key does not depend on it: two nodes differing only there share entries (a hit serves another node's payload)",
-        )
+    regs = _executor_registry(db)
     # the identity and inputs actually flow into compute_cache_key
     used = cache_key_attrs(ctx)
     ok = used is not None
@@ -372,17 +403,36 @@ def run(ctx) -> None:
     # ---- R6 / R7 -----------------------------------------------------------------
     ccfg = ctx.cfg(cc)
     cdom = dominators(ccfg.entry)
-    opt = [n for n in ccfg.nodes if n.kind == "test" and "cache" in src(n.ast) and "getattr" in src(n.ast) or (n.kind == "test" and src(n.ast) in ("not node.cache",))]
+
+    def opt_tests(g_cfg):
+        return [n for n in g_cfg.nodes if n.kind == "test" and ("cache" in src(n.ast) and "getattr" in src(n.ast) or src(n.ast) in ("not node.cache",))]
+
     backend = [n for n in ccfg.nodes if any(isinstance(c.func, ast.Attribute) and c.func.attr in ("get", "set") and src(c.func.value) == "cache" for c in ccfg.calls_at(n))]
+    # the key may be computed by a helper of the same module: its result is the key variable here
+    key_helpers = [g for g in db.funcs_in("runners._shared.caching") if g is not cc and g.parent is None and any("compute_cache_key" in call_names(db, c, g) for c in db.calls_in(g))]
+    keyvars = set(vars_from_call(db, cc, {"compute_cache_key"} | {g.name for g in key_helpers}))
+    emptykey = [n for n in ccfg.nodes if n.kind == "test" and isinstance(n.ast, ast.UnaryOp) and isinstance(n.ast.op, ast.Not) and isinstance(n.ast.operand, ast.Name) and n.ast.operand.id in keyvars]
+    empty_ok = bool(emptykey) and bool(backend) and all(emptykey[0] in cdom.get(b, set()) for b in backend)
+    opt = opt_tests(ccfg)
     ok = bool(opt) and bool(backend)
     if ok:
         t = opt[0]
         tgt = [x for x, l, _ in t.succ if l == "T"]
         ok = all(t in cdom.get(b, set()) for b in backend) and bool(tgt) and not any(reaches(tgt[0], b) for b in backend)
+    elif key_helpers and empty_ok:
+        # opt-in tested inside the key helper: its 'not opted in' branch returns an empty key without building one,
+        # and the empty key never reaches the backend (checked below)
+        ok = True
+        for g in key_helpers:
+            gcfg = ctx.cfg(g)
+            gopt = opt_tests(gcfg)
+            builders = [n for n in gcfg.nodes if any("compute_cache_key" in call_names(db, c, g) for c in gcfg.calls_at(n))]
+            tgt = [x for t_ in gopt[:1] for x, l, _ in t_.succ if l == "T"]
+            falsy_rets = all(isinstance(r.ast.value, ast.Constant) and not r.ast.value.value for r in (reachable(tgt[0]) if tgt else []) if r.kind == "stmt" and isinstance(r.ast, ast.Return))
+            if not (gopt and tgt and falsy_rets and not any(reaches(tgt[0], b) for b in builders)):
+                ok = False
     rep.add("C09.R6", f"{cc.qname}:opt-in", ok, cc.loc(), "a node that did not opt in never reaches the backend" if ok else "a node that did not opt in can be looked up in the cache")
-    keyvars = set(vars_from_call(db, cc, {"compute_cache_key"}))
-    emptykey = [n for n in ccfg.nodes if n.kind == "test" and isinstance(n.ast, ast.UnaryOp) and isinstance(n.ast.op, ast.Not) and isinstance(n.ast.operand, ast.Name) and n.ast.operand.id in keyvars]
-    ok = bool(emptykey) and all(emptykey[0] in cdom.get(b, set()) for b in backend)
+    ok = empty_ok
     rep.add("C09.R6", f"{cc.qname}:unpicklable-inputs", ok, cc.loc(), "an empty key (unpicklable inputs) never reaches the backend" if ok else "an empty key can be used for a look-up: all nodes with unpicklable inputs would share one entry")
     for ss in superstep_funcs(db):
         fs = [ss] + list(ss.children.values())
@@ -403,6 +453,17 @@ def run(ctx) -> None:
             if not (execs and stores and checks):
                 rep.bad("C09.R6", f"{f.qname}:structure", f.loc(), "cache check / execute / store sites not all found")
                 continue
+            # the entry is filed under the key the look-up used, computed before the node ran: a key rebuilt after
+            # execution is taken from arguments the node function may have changed in place
+            kvars = set(vars_from_call(db, f, {"check_cache"}, index=0))
+            sic_ = db.func("runners._shared.caching.store_in_cache")
+            for sn in stores:
+                for c in cfg2.calls_at(sn):
+                    if "store_in_cache" in call_names(db, c, f):
+                        passes_key = any(isinstance(a, ast.Name) and a.id in kvars for a in list(c.args) + [k.value for k in c.keywords])
+                        rebuilt = [g.qname for g in db.closure([sic_], property_reads=False) if any("compute_cache_key" in call_names(db, c2, g) for c2 in db.calls_in(g))]
+                        oks = passes_key and not rebuilt
+                        rep.add("C09.R6", f"{f.qname}:store-under-lookup-key", oks, f"{f.module.rel}:{c.lineno}", "the result is stored under the key the look-up computed before execution" if oks else "the store key is " + ("rebuilt after execution" if rebuilt else "not the look-up key") + ": a node function that updates an argument in place files its result under the post-call arguments — a later call with those arguments is served this entry, the original call misses")
             if not restores:
                 continue
             start = checks[0]
